@@ -197,6 +197,90 @@ impl Part for EncodeSide {
 }
 
 
+// ------------------------------------------------------------------------ wire values next to bytes of any value
+/// "exact, or refused - never wrong" also when the rest of the frame is not what LFS would send: the other bytes of the frame
+/// hold anything (unknown enumeration values, set spare bytes). Either the frame is refused, or the time field decodes to
+/// exactly its wire value and is written back as the same bytes.
+#[derive(Clone, Debug)]
+pub struct NoiseCase {
+    pub field: usize,
+    pub compressed: bool,
+    pub wire: u64,
+    pub tape: Vec<u8>,
+    /// (position, value) pairs written over the image (positions are taken modulo the frame length; size, type and the time
+    /// field itself are left alone)
+    pub noise: Vec<(u16, u8)>,
+}
+
+pub struct WireInNoise;
+impl Part for WireInNoise {
+    type Case = NoiseCase;
+    fn name(&self) -> &'static str {
+        "wire-values-next-to-arbitrary-bytes"
+    }
+    fn check(&self, c: &NoiseCase, ev: &mut Local) -> Result<(), Fail> {
+        let (variant, path, width, scale, off) = DURATION_FIELDS[c.field];
+        if variant == "Small" {
+            return Ok(());
+        }
+        let name = format!("{variant}.{path}");
+        let mode = if c.compressed { Mode::Compressed } else { Mode::Uncompressed };
+        let mut frame = image::from_tape(spec().packet(variant).unwrap(), &mode, &c.tape, false).image;
+        let len = frame.len();
+        for (p, v) in &c.noise {
+            let p = *p as usize % len;
+            if p >= 2 && !(off..off + width).contains(&p) {
+                frame[p] = *v;
+            }
+        }
+        let w = c.wire & if width == 2 { 0xffff } else { 0xffff_ffff };
+        frame[off..off + width].copy_from_slice(&w.to_le_bytes()[..width]);
+        let Ok(pkt) = decode_one(&frame, &mode) else {
+            ev.class("refused");
+            return Ok(());
+        };
+        if crate::props::c03::kind_of(&pkt) != variant {
+            return Ok(());
+        }
+        let want = format!("{:?}", Duration::from_millis(w * scale));
+        let tree = dbgtree::parse(&format!("{pkt:?}")).map_err(|e| Fail::new("harness:debug-parse", e))?;
+        let got = tree.get(path).map(|n| n.text()).ok_or_else(|| Fail::new("harness:path-missing", name.clone()))?;
+        ensure!(
+            got == want,
+            format!("c15:decoded-duration-wrong:{name}"),
+            "{name} ({}): frame {} - wire value {w} (x{scale} ms) - is accepted and decodes to {got}, expected {want}",
+            mode_name(&mode),
+            hex(&frame[..frame.len().min(64)])
+        );
+        if let Ok(back) = encode_one(&pkt, &mode) {
+            if back.len() >= off + width {
+                let w2 = read_wire(&back, off, width);
+                ensure!(w2 == w, format!("c15:wire-value-does-not-roundtrip:{name}"), "{name} ({}): frame {}: wire {w} -> {got} -> wire {w2}", mode_name(&mode), hex(&frame[..frame.len().min(64)]));
+            }
+        }
+        ev.class("accepted");
+        ev.class(&name);
+        ev.nontrivial(&(c.field, c.compressed, c.wire, &c.tape, &c.noise));
+        Ok(())
+    }
+    fn to_json(&self, c: &NoiseCase) -> Value {
+        json!({"field": format!("{}.{}", DURATION_FIELDS[c.field].0, DURATION_FIELDS[c.field].1), "compressed": c.compressed, "wire": c.wire, "tape": hex(&c.tape), "noise": c.noise.iter().map(|(p, v)| json!([p, v])).collect::<Vec<_>>()})
+    }
+    fn from_json(&self, v: &Value) -> Option<NoiseCase> {
+        let f = v.get("field")?.as_str()?;
+        let field = DURATION_FIELDS.iter().position(|d| format!("{}.{}", d.0, d.1) == f)?;
+        let noise = v.get("noise")?.as_array()?.iter().map(|x| Some((x.get(0)?.as_u64()? as u16, x.get(1)?.as_u64()? as u8))).collect::<Option<Vec<_>>>()?;
+        Some(NoiseCase { field, compressed: v.get("compressed")?.as_bool()?, wire: v.get("wire")?.as_u64()?, tape: unhex(v.get("tape")?.as_str()?)?, noise })
+    }
+}
+
+fn noise_strategy() -> impl Strategy<Value = NoiseCase> {
+    let wire = prop_oneof![2 => 0u64..4, 2 => any::<u16>().prop_map(|x| x as u64), 2 => any::<u32>().prop_map(|x| x as u64), 1 => Just(0xffffu64), 1 => Just(0xffff_ffffu64), 1 => Just(0x100u64), 1 => Just(0x0001_0000u64)];
+    let value = prop_oneof![3 => any::<u8>(), 2 => 1u8..12, 1 => Just(0xffu8), 1 => Just(0x80u8)];
+    (0..DURATION_FIELDS.len(), any::<bool>(), wire, proptest::collection::vec(any::<u8>(), 0..120), proptest::collection::vec((any::<u16>(), value), 1..6))
+        .prop_map(|(field, compressed, wire, tape, noise)| NoiseCase { field, compressed, wire, tape, noise })
+}
+
 // ------------------------------------------------------------------------ the same conversions in other surroundings
 /// The conversion of a time field must not depend on what the packet's other fields hold: the packet is obtained by decoding
 /// a generated frame of its kind (every other field drawn freely), the duration is set on it, and the encoded frame must
@@ -424,7 +508,7 @@ impl Part for RaceLength {
 }
 
 pub fn parts() -> Vec<Box<dyn DynPart>> {
-    vec![Box::new(DecodeSide), Box::new(EncodeSide), Box::new(InSurroundings), Box::new(RaceLength)]
+    vec![Box::new(DecodeSide), Box::new(WireInNoise), Box::new(EncodeSide), Box::new(InSurroundings), Box::new(RaceLength)]
 }
 
 pub fn run(run: &mut Run) {
@@ -510,6 +594,9 @@ pub fn run(run: &mut Run) {
     let per = with_neighbours.len() as u64;
     let total = per * four.len() as u64;
     run.enumerate(&DecodeSide, total, false, |i| Some(WireCase::One { field: four[(i / per) as usize], compressed: i % 2 == 0, wire: with_neighbours[(i % per) as usize] }));
+    // decode side, the rest of the frame holding anything
+    let n = run.budget(300_000, 10_000_000);
+    run.prop(&WireInNoise, noise_strategy(), n);
     // encode side
     let n = run.budget(300_000, 10_000_000);
     run.prop(&EncodeSide, duration_strategy(), n);
